@@ -15,9 +15,13 @@ type Trial struct {
 	// Reps: every operation is executed this many times in a row (>= 1); each repetition must give the same
 	// result.  Repetition widens the window for value corruption that is not a data race.
 	Reps int `json:"reps,omitempty"`
+	// Walk > 0: the goroutine runs its whole operation list Reps times and repetition r uses argument Arg+r*Walk,
+	// so every goroutine wanders through the input families instead of repeating one input (the sequential
+	// reference walks the same way)
+	Walk int `json:"walk,omitempty"`
 }
 
 // Lazy operations: their first call may build package-level state (tables today; anything tomorrow).
 var Lazy = []string{"From16", "To16", "DecodeTyped", "LineariseColor", "EncodeColor", "From8To8", "Adapt", "Primaries", "ToXYZ"}
 
-var All = []string{"From16", "To16", "From8To8", "LineariseColor", "EncodeColor", "DecodeTyped", "LineariseImage", "EncodeImage", "ConvertImage", "Load", "LoadFamily", "LoadFamily", "Adapt", "ToXYZ", "Primaries", "Profile", "TransformBig", "LoadBad", "LoadBad", "TransformTyped", "TransformTyped", "TileTransform", "TileTransform"}
+var All = []string{"From16", "To16", "From8To8", "LineariseColor", "EncodeColor", "DecodeTyped", "LineariseImage", "EncodeImage", "ConvertImage", "Load", "LoadFamily", "LoadFamily", "Adapt", "ToXYZ", "Primaries", "Profile", "TransformBig", "LoadBad", "LoadBad", "TransformTyped", "TransformTyped", "TileTransform", "TileTransform", "TransformContent", "TransformContent", "TransformContent"}
